@@ -18,8 +18,8 @@ def txStep (s : St) (ws : List String) : St × String :=
                        chainID := if cid == "0" then rules.chainID else rules.chainID + 1,
                        timestamp := ts, authStart := as, authStop := ae }
       let sc := scopeOf scope [(s.h.key sponsor, permWrite)]
-      let (cur', o) := processTx rules s.h prices now sc tx s.cur
-      ({ s with cur := cur' }, outcomeString s.univ cur' o)
+      let (b', o) := processTxB rules s.h prices now sc tx s.blk
+      ({ s with blk := b' }, outcomeString s.univ b'.visible o ++ " diff=" ++ diffString s.univ b')
     | _, _, _, _, _, _, _, _, _ => (s, "bad-op")
   | _ => (s, "bad-op")
 
